@@ -1499,6 +1499,7 @@ static aligned_t qt_qsort_inner(const struct qt_qsort_iargs *a)
         {
             size_t leftwall  = furthest.leftwall;
             size_t rightwall = furthest.rightwall;
+            int    pivots_done = 0; /* [rightwall, len) holds only pivots */
 
             while ((leftwall < rightwall) && (array[leftwall] <= pivot)) leftwall++;
             while ((leftwall < rightwall) && (array[rightwall] > pivot)) rightwall--;
@@ -1519,6 +1520,23 @@ static aligned_t qt_qsort_inner(const struct qt_qsort_iargs *a)
             if (array[rightwall] <= pivot) {
                 rightwall++;
             }
+            if (rightwall == len) {
+                /* nothing is larger than the pivot: the left part would be the whole
+                 * segment again (and again).  The pivot is the maximum, so move every
+                 * element equal to it to the end, where it is in its final place, and
+                 * sort only what is left of them */
+                size_t l = 0;
+
+                while (l < rightwall) {
+                    if (array[l] == pivot) {
+                        rightwall--;
+                        SWAP(array, l, rightwall);
+                    } else {
+                        l++;
+                    }
+                }
+                pivots_done = 1;
+            }
             /* now, spawn the next two iterations */
             {
                 struct qt_qsort_iargs na[2];
@@ -1531,7 +1549,7 @@ static aligned_t qt_qsort_inner(const struct qt_qsort_iargs *a)
                     /* qt_qsort_inner(na); */
                     qthread_fork_syncvar((qthread_f)qt_qsort_inner, na, rets);
                 }
-                if ((na[1].length > 0) && (len > rightwall)) {
+                if (!pivots_done && (na[1].length > 0) && (len > rightwall)) {
                     /* qt_qsort_inner(na+1); */
                     qthread_fork_syncvar((qthread_f)qt_qsort_inner, na + 1, rets + 1);
                 }
